@@ -32,7 +32,8 @@ RULE = ("seeded configurations x latency scripts x addition scripts; distinct = 
 REQUIRED_BUCKETS = ["align:none", "align:epoch", "align:past-nonmultiple", "align:future", "creation-exactly-aligned",
                     "creation-1us-off", "latency>=1period", "latency-several-periods", "series-added-between-ticks",
                     "series-added-during-slow-tick", "catch-up-observed", "multi-series", "actor-tier",
-                    "actor-tier:timer-late>=1period"]
+                    "actor-tier:timer-late>=1period", "moving-window-tier", "moving-window-tier:align:none",
+                    "moving-window-tier:align:offset"]
 REQUIRED_COUNTERS = ["ticks_observed", "runs"]
 ASSUMPTIONS = ["virtual time; sources are healthy channels (source failures are out of this property's scope)"]
 
@@ -44,8 +45,11 @@ def budget(tier: str) -> dict[str, Any]:
 
 
 def gen(rng: Any, tier: str, i: int) -> Any:
-    if rng.random() < 0.25:
+    r0 = rng.random()
+    if r0 < 0.22:
         return gen_actor(rng)
+    if r0 < 0.34:
+        return gen_mw(rng)
     period = rng.choice([0.1, 0.2, 1.0, 1.0, 2.5, 60.0])
     ak = rng.choice(["none", "epoch", "past", "future"])
     align = {"none": None, "epoch": 0.0, "past": -rng.choice([0.3, 7.123456, 1234.5]) * 1.0,
@@ -267,9 +271,101 @@ def check_actor_tier(case: dict[str, Any], rec: Any) -> None:
     rec.observed({"tier": "actor", "ticks": len(glob), "series": {str(c): len(s["ts"]) for c, s in out["sinks"].items()}})
 
 
+# ------------------------------------------------------------------ MovingWindow tier
+# A MovingWindow created with a resampler_config owns a Resampler (timeseries/_moving_window.py). The samples it
+# hands to its ring buffer (recorded by wrapping the buffer's update on that instance) must be on the grid of the
+# *resampler configuration's* align_to, independent of the window's own align_to.
+
+
+def gen_mw(rng: Any) -> dict[str, Any]:
+    period = rng.choice([0.5, 1.0, 2.0])
+    x_kind = rng.choice(["none", "epoch", "offset", "offset"])
+    return {"tier": "mw", "period": period, "x_kind": x_kind,
+            "x_off": {"none": None, "epoch": 0.0, "offset": round(rng.choice([0.25, 0.3, 0.123456]) * period, 6)}[x_kind],
+            "y_off": round(rng.choice([0.0, 0.5, 0.4]) * period, 6),
+            "start_offset": round(rng.choice([0.0, 0.3, 0.999999, 0.5]) * period + rng.randint(1, 30) * period, 6),
+            "ticks": rng.randint(10, 20)}
+
+
+async def _drive_mw(case: dict[str, Any], out: dict[str, Any]) -> None:
+    import asyncio
+    from datetime import datetime, timezone
+
+    from frequenz.channels import Broadcast
+    from frequenz.quantities import Quantity
+
+    from frequenz.sdk.timeseries import MovingWindow, Sample
+    from frequenz.sdk.timeseries._resampling import ResamplerConfig
+
+    p = case["period"]
+    per = timedelta(seconds=p)
+    ch = Broadcast(name="in")
+    kw: dict[str, Any] = {"align_to": None if case["x_off"] is None else EPOCH + timedelta(seconds=case["x_off"])}
+    out["created"] = datetime.now(timezone.utc)
+    mw = MovingWindow(size=per * 8, resampled_data_recv=ch.new_receiver(limit=1000), input_sampling_period=per / 3,
+                      resampler_config=ResamplerConfig(resampling_period=per, **kw),
+                      align_to=EPOCH + timedelta(seconds=case["y_off"]))
+    rec_ts: list[Any] = []
+    orig = mw._buffer.update  # noqa: SLF001
+
+    def update(sample: Any) -> None:
+        rec_ts.append(sample.timestamp)
+        orig(sample)
+
+    mw._buffer.update = update  # type: ignore[method-assign]  # noqa: SLF001
+    mw.start()
+    tx = ch.new_sender()
+    loop = asyncio.get_event_loop()
+    t0 = loop.time()
+    k = 0
+    while loop.time() - t0 < case["ticks"] * p:
+        await tx.send(Sample(datetime.now(timezone.utc), Quantity(float(k))))
+        k += 1
+        await asyncio.sleep(p * 0.37)
+    await asyncio.sleep(0.123 * p)
+    out["ts"] = rec_ts
+    await mw.stop()
+
+
+def check_mw(case: dict[str, Any], rec: Any) -> None:
+    from ..vloop import run_virtual
+
+    out: dict[str, Any] = {}
+    run_virtual(lambda: _drive_mw(case, out), start_offset=case["start_offset"])
+    rec.bucket("moving-window-tier")
+    rec.bucket("moving-window-tier:align:" + case["x_kind"])
+    rec.count("runs")
+    p = case["period"]
+    per = timedelta(seconds=p)
+    ts = out["ts"]
+    w0 = {"tier": "moving-window", "period": p, "resampler_align_to_offset": case["x_off"],
+          "window_align_to_offset": case["y_off"], "created": str(out["created"]), "timestamps": [str(t) for t in ts[:12]]}
+    if len(ts) < 5:
+        rec.violation("moving-window-resampler-emitted-too-few-samples", w0)
+        return
+    rec.count("ticks_observed", len(ts))
+    base = out["created"] if case["x_off"] is None else EPOCH + timedelta(seconds=case["x_off"])
+    ks = []
+    for t in ts:
+        q = (t - base) / per
+        if abs(q - round(q)) > 1e-9:
+            rec.violation("timestamp-not-on-the-alignment-grid", {**w0, "timestamp": str(t)})
+            return
+        ks.append(round(q))
+    if ks != list(range(ks[0], ks[0] + len(ks))):
+        rec.violation("tick-skipped-or-duplicated", {**w0, "ks": ks[:40]})
+    if not (out["created"] <= ts[0] <= out["created"] + 2 * per):
+        rec.violation("first-tick-outside-[creation,creation+2periods]", {**w0, "first": str(ts[0])})
+    rec.nontrivial(True)
+    rec.observed({"tier": "moving-window", "ticks": len(ts), "first": str(ts[0])})
+
+
 def check(case: dict[str, Any], rec: Any) -> None:
     if case.get("tier") == "actor":
         check_actor_tier(case, rec)
+        return
+    if case.get("tier") == "mw":
+        check_mw(case, rec)
         return
     c = _resolve_add_in_tick(case)
     p = c["period"]
